@@ -288,6 +288,10 @@ def const_values(p, expr, fn):
     included); None in the list for a non-constant definition"""
     if isinstance(expr, ast.Constant):
         return [expr.value]
+    if isinstance(expr, ast.Starred) and isinstance(expr.value, ast.Attribute) and isinstance(expr.value.value, ast.Name) and expr.value.value.id in ("self", "cls") and fn is not None:
+        c = p.enclosing_class(fn)
+        t = p.class_attr_const(c.name, expr.value.attr) if c is not None else None
+        return [t[0] if isinstance(t, tuple) and t and isinstance(t[0], str) else None]
     if isinstance(expr, ast.Starred) and isinstance(expr.value, ast.Name) and fn is not None:
         # f(*reply) with reply = ("503", "text"): the first element
         f, ds = closure_lookup(p, fn, expr.value.id)
@@ -303,6 +307,10 @@ def const_values(p, expr, fn):
                 vals += const_values(p, v, f)
             elif kind == "assign" and isinstance(v, ast.IfExp):
                 vals += const_values(p, v.body, f) + const_values(p, v.orelse, f)
+            elif kind == "unpack" and isinstance(_, int) and isinstance(v, ast.Attribute) and isinstance(v.value, ast.Name) and v.value.id in ("self", "cls"):
+                c = p.enclosing_class(f)
+                t = p.class_attr_const(c.name, v.attr) if c is not None else None
+                vals.append(t[_] if isinstance(t, tuple) and len(t) > _ and isinstance(t[_], (str, int)) else None)
             else:
                 vals.append(None)
         return vals or [None]
